@@ -221,7 +221,7 @@ class Check:
                    functions_entered=len(calls), calls=calls)
         if agg['incomplete']:
             msg = '%s: %d states unexplored at the time limit' % (job['name'], agg['incomplete'])
-            if self.tier == 'quick' or not job.get('allow_incomplete'):
+            if self.tier == 'quick':  # the thorough tier is time-boxed: what was not reached is reported, not an error
                 self.errors.append(msg)
             res['incomplete_note'] = msg
         for tag, need in job.get('require_tags', {'end': 1}).items():
